@@ -349,16 +349,16 @@ def dictattr_section(ctx, M, cls):
         ctx.guarded('%s.and.%s' % (cls, argkind), lambda argkind=argkind: and_(argkind))
 
     # ------------------------------------------------------------------ d + other  ==  {**d, **other}
-    def add(okind):
-        th, ex, self_ = setup('add.' + okind)
+    def add(okind, opname='add', method='__add__'):
+        th, ex, self_ = setup(opname + '.' + okind)
         D = self_.pd
-        key = resolve(th, '__add__')
+        key = resolve(th, method)
         other = th.sym_dict('o', cls=('dict' if okind == 'dict' else cls), kty='str')
         O = other.pd
         E = [K0, K1]
-        outs, inst = run('add.' + okind, key, th, ex, self_, [other], E=E)
-        kw = dict(witness=wit(D, K0_in_o=O.dom(K0), K1_in_o=O.dom(K1), K0_before_K1_in_o=O.rk(K0) < O.rk(K1)), replay=rp('dictattr', cls, 'add.' + okind))
-        pre = '%s.add.%s.' % (cls, okind)
+        outs, inst = run(opname + '.' + okind, key, th, ex, self_, [other], E=E)
+        kw = dict(witness=wit(D, K0_in_o=O.dom(K0), K1_in_o=O.dom(K1), K0_before_K1_in_o=O.rk(K0) < O.rk(K1)), replay=rp('dictattr', cls, opname + '.' + okind))
+        pre = '%s.%s.%s.' % (cls, opname, okind)
         nret = 0
         for out in outs:
             hy = ex.facts + out.st.pc + inst
@@ -375,9 +375,11 @@ def dictattr_section(ctx, M, cls):
         if not nret:
             raise OutOfSubset('no returning path')
         ctx.cover(pre + 'precondition', [D.dom(K0), O.dom(K0), O.dom(K1), Not(D.dom(K1))] + th.inst(E))
-    if cls == 'dictattr':
+    if cls == 'dictattr':            # Dict.__add__ is tree_update (nested merge): property C15's subject, bounded here
         for okind in ('dict', 'same'):
             ctx.guarded('%s.add.%s' % (cls, okind), lambda okind=okind: add(okind))
+    for okind in ('dict', 'same'):       # d | other: dict.__or__ re-wrapped into type(self)
+        ctx.guarded('%s.or.%s' % (cls, okind), lambda okind=okind: add(okind, 'or', '__or__'))
 
     # ------------------------------------------------------------------ d[key], d.key
     def getitem_key(how):
